@@ -36,7 +36,7 @@ def shards(tier):
 
 def required_counters(tier):
     d = {"transform." + t: 50 for t in TRANSFORMS}
-    d.update({"eager.accept": 50, "eager.reject": 50, "value_independence": 100, "pytree_args": 20, "tracer_checks_observed": 500, "oracle_crosscheck": 100, "param_named_like_symbolic_name": 30, "question.cases": 50, "dict.cases": 50, "rechecked_after_warmup": 100, "mutation.cases": 50, "typevar.mixed_tracer_concrete": 200})
+    d.update({"eager.accept": 50, "eager.reject": 50, "value_independence": 100, "pytree_args": 20, "tracer_checks_observed": 500, "oracle_crosscheck": 100, "param_named_like_symbolic_name": 30, "question.cases": 50, "dict.cases": 50, "rechecked_after_warmup": 100, "mutation.cases": 50, "weak.cases": 100, "dataclass.cases": 100, "typevar.mixed_tracer_concrete": 200})
     return d
 
 
@@ -452,6 +452,106 @@ def run_mixed_case(rec, rng, rngkey):
                 rec.violation("trace-vs-eager", dict(case, transform=t), f"TypeVar array types, sizes {n},{m}: {t} {v}, eager {eager}", mechanism=f"typevar-trace-{v.split(':')[0]}-eager-{eager}")
 
 
+def run_weak_case(rec, rng, rngkey):
+    """weakly typed values (Python scalars handed to jit / grad / eval_shape, jnp.asarray(2.0), jnp.full): the
+    tracer carries a shape and a dtype; `weak_type` is not part of either - the verdict is the one an eager call on
+    a committed array of that shape and dtype gets"""
+    import beartype
+    import jax
+    import jax.numpy as jnp
+    import typeguard
+
+    import jaxtyping
+    from jaxtyping import jaxtyped
+
+    def attempt(thunk):
+        try:
+            thunk()
+            return "accept"
+        except Exception as e:  # noqa
+            return classify(e)
+
+    cat = rng.choice(("Float16", "Float32", "BFloat16", "Float", "Int8", "Int32", "Int", "Float64", "Inexact", "UInt8"))
+    kind = rng.choice(("pyfloat", "pyint", "asarray-float", "full-float", "asarray-int"))
+    spec = "" if kind in ("pyfloat", "pyint", "asarray-float", "asarray-int") else "n"
+    val = {"pyfloat": 2.0, "pyint": 3, "asarray-float": jnp.asarray(2.0), "asarray-int": jnp.asarray(3), "full-float": jnp.full((3,), 2.0)}[kind]
+    carried = jnp.asarray(val)
+    strong = jax.device_put(np.zeros(carried.shape, dtype=carried.dtype))  # committed array: same shape, same dtype
+    for cname, checker in (("typeguard", typeguard.typechecked), ("beartype", beartype.beartype)):
+        ns = {"__name__": "jtv_c17_generated", "jnp": jnp, "X": getattr(jaxtyping, cat)[jax.Array, spec]}
+        real.exec_src("def f(x: X):\n    return jnp.sum(x) * 1.0\n", ns)
+        f = jaxtyped(typechecker=checker)(ns["f"])
+        eager = attempt(lambda: f(strong))
+        case = {"weak_case": True, "category": cat, "value": kind, "dtype": str(carried.dtype), "checker": cname, "rngkey": rngkey}
+        rec.count("weak.cases")
+        rec.case(("weak", cat, kind, cname), True)
+        runs = [("jit", lambda: jax.jit(f)(val)), ("eval_shape", lambda: jax.eval_shape(f, jax.ShapeDtypeStruct(carried.shape, carried.dtype, weak_type=True))), ("jit-of-weak-array", lambda: jax.jit(f)(carried))]
+        if carried.dtype.kind == "f":
+            runs.append(("grad", lambda: jax.grad(f)(val)))
+        if carried.ndim:
+            runs.append(("vmap", lambda: jax.vmap(f)(jnp.stack([val] * 2))))
+        if not isinstance(val, (int, float)):
+            runs.append(("eager-weak", lambda: f(val)))
+        for t, thunk in runs:
+            v = attempt(thunk)
+            rec.count("transform." + t.split("-")[0])
+            if v != eager:
+                rec.violation("trace-vs-eager", dict(case, transform=t), f"{cat}[Array, {spec!r}] on a weakly typed {kind} ({carried.dtype}{list(carried.shape)}): {t} {v}, eager call on a committed array of that shape and dtype {eager}", mechanism=f"weak-type-{t}-{v.split(':')[0]}-eager-{eager}")
+
+
+_DC = {}
+
+
+def run_dataclass_case(rec, rng, rngkey):
+    """a decorated dataclass (registered as a PyTree) handed DIRECTLY to a transformation - jax.jit(Affine)(w, b):
+    its generated __init__ is the decorated function; inconsistent fields are refused under every transformation as
+    they are eagerly. (Only refusals are compared for vmap / eval_shape: rebuilding the RESULT from batched or
+    abstract leaves is another call, with other arguments.)"""
+    import dataclasses
+
+    import beartype
+    import jax
+    import jax.numpy as jnp
+    import typeguard
+
+    import jaxtyping
+    from jaxtyping import jaxtyped
+
+    def attempt(thunk):
+        try:
+            thunk()
+            return "accept"
+        except Exception as e:  # noqa
+            return classify(e)
+
+    for cname, checker in (("typeguard", typeguard.typechecked), ("beartype", beartype.beartype)):
+        if cname not in _DC:
+            ns = {"__name__": "jtv_c17_generated", "dataclasses": dataclasses, "jaxtyped": jaxtyped, "tc": checker, "W": jaxtyping.Float[jax.Array, "o i"], "B": jaxtyping.Float[jax.Array, "o"]}
+            real.exec_src("@jaxtyped(typechecker=tc)\n@dataclasses.dataclass\nclass Affine:\n    w: W\n    b: B\n", ns)
+            Affine = ns["Affine"]
+            jax.tree_util.register_pytree_node(Affine, lambda a: ((a.w, a.b), None), lambda aux, ch: Affine(*ch))
+            _DC[cname] = Affine
+        Affine = _DC[cname]
+        o, i = rng.choice((2, 3)), rng.choice((2, 4))
+        o2 = rng.choice((o, o + 1))
+        w, b = jax.device_put(np.zeros((o, i), "float32")), jax.device_put(np.zeros((o2,), "float32"))
+        eager = attempt(lambda: Affine(w, b))
+        want = "accept" if o == o2 else "reject"
+        case = {"dataclass_case": True, "o": o, "i": i, "o2": o2, "checker": cname, "rngkey": rngkey}
+        rec.count("dataclass.cases")
+        rec.case(("dataclass", o, i, o2, cname), True)
+        if eager != want:
+            rec.violation("eager-vs-oracle", case, f"Affine(w: {o}x{i}, b: {o2}) eagerly: {eager}, expected {want}", mechanism=f"dataclass-eager-{eager}-expected-{want}")
+        runs = [("jit", lambda: jax.jit(Affine)(w, b)), ("jit-lambda", lambda: jax.jit(lambda a, c: Affine(a, c))(w, b))]
+        if o != o2:
+            runs += [("vmap", lambda: jax.vmap(Affine)(jnp.stack([w, w]), jnp.stack([b, b]))), ("eval_shape", lambda: jax.eval_shape(Affine, jax.ShapeDtypeStruct(w.shape, w.dtype), jax.ShapeDtypeStruct(b.shape, b.dtype))), ("jit-vmap", lambda: jax.jit(jax.vmap(Affine))(jnp.stack([w, w]), jnp.stack([b, b]))), ("tree_map", lambda: jax.tree_util.tree_map(Affine, [w], [b]))]
+        for t, thunk in runs:
+            v = attempt(thunk)
+            rec.count("transform." + t.split("-")[0])
+            if v != eager:
+                rec.violation("trace-vs-eager", dict(case, transform=t), f"decorated dataclass handed to {t} with w: {o}x{i}, b: {o2}: {v}, eager construction {eager}", mechanism=f"dataclass-{t}-{v.split(':')[0]}-eager-{eager}")
+
+
 def run_shard(rec, seed, shard, tier):
     import jax
 
@@ -466,6 +566,9 @@ def run_shard(rec, seed, shard, tier):
             run_dict_case(rec, random.Random(key + "/d"), key + "/d")
         if k % 4 == 2:
             run_mixed_case(rec, random.Random(key + "/m"), key + "/m")
+        if k % 4 == 3:
+            run_weak_case(rec, random.Random(key + "/w"), key + "/w")
+            run_dataclass_case(rec, random.Random(key + "/dc"), key + "/dc")
     r = random.Random(f"{seed}/C17/{shard['i']}/0")
     s = GS.gen_signature(r, max_params=3, p_ret=0.8)
     rec.sample({"sig": s, "transforms": TRANSFORMS})
@@ -474,7 +577,11 @@ def run_shard(rec, seed, shard, tier):
 def replay(rec, case):
     warnings.filterwarnings("ignore")
     install_spy()
-    if case.get("mixed_case"):
+    if case.get("dataclass_case"):
+        run_dataclass_case(rec, random.Random(case["rngkey"]), case["rngkey"])
+    elif case.get("weak_case"):
+        run_weak_case(rec, random.Random(case["rngkey"]), case["rngkey"])
+    elif case.get("mixed_case"):
         run_mixed_case(rec, random.Random(case["rngkey"]), case["rngkey"])
     elif case.get("dict_case"):
         run_dict_case(rec, random.Random(case["rngkey"]), case["rngkey"])
